@@ -62,6 +62,14 @@ def make_plan(prop, total, tier, rule):
     if not quick:
         add('few', 'gxx+portable', reduced + flt, 6)
         add('few', 'clang+builtin', reduced + flt, 6)
+    # overflow_integer over CNL integer wrappers (two's-complement wide_integer words, symmetric elastic_integer)
+    wr = []
+    for tag in ('cnl::saturated_overflow_tag', 'cnl::_impl::throwing_overflow_tag', 'cnl::trapping_overflow_tag'):
+        for rep, rl in [('cnl::wide_integer<31>', 'wide31'), ('cnl::wide_integer<63>', 'wide63'), ('cnl::wide_integer<15, short>', 'wide15_short'),
+                        ('cnl::elastic_integer<20>', 'elastic20'), ('cnl::wide_integer<32, unsigned>', 'wide32u'), ('cnl::wide_integer<127>', 'wide127')]:
+            wr.append('c06::WrapRep<%s, %s, %s>::reg("%s")' % (tag, rep, 'true' if total else 'false', rl))
+    units.append(Unit('%s-wrap-gxx' % prop, 'gxx', 'props/C06.h', wr, rc_cases=cases * 5, enum_max=0, chunk=6))
+    units.append(Unit('%s-wrap-clang' % prop, 'clang', 'props/C06.h', wr[:8], rc_cases=cases * 5, enum_max=0, chunk=6))
     return dict(units=units, rule=rule, assumptions=[
         'the trapping tag is observed through hook H2 (abort hook + longjmp) rather than by letting the process die',
         'UB or an internal error inside CNL is a failure for both C06 and C07 (classes .../ub-trap, .../abort:...)'])
